@@ -332,6 +332,23 @@ def c15(rng):
         t2 = F.clamp_scalar(bytes(rng.getrandbits(8) for _ in range(32)))
         out.append(('ptlc:claim-wrong-tweak', [bs(T.make_ptlc_witness(SEEDS[rcv], sf, tweak_scalar=t2, sigflags=flh)), bs(lock)], cache, cfg, False))
     out.append(('ptlc:refund-other-key', [bs(T.make_ptlc_refund_witness(SEEDS[other], sf, flh)), bs(lock)], cache, cfg, False))
+    # the verifier's slack threshold (functions.flags['ts_threshold']) changes between verifications of one process: a long contract
+    # (timeout 3600) refunded exactly at its deadline is 3600 s ahead of the clock — refused under the default slack of 60, accepted
+    # when the slack check is disabled (0), refused again under 10; and a refund 25 s ahead is accepted under 60, refused under 10
+    for lf_, wf_, kw_ in (rng.choice(builders), (None, None, None)):
+        if lf_ is not None:
+            lk_long = lf_(PUBS[rcv], PUBS[ref], preimage=pre, timeout=3600, sigflags=flh, **kw_)
+            lk_short = lf_(PUBS[rcv], PUBS[ref], preimage=pre, timeout=5, sigflags=flh, **kw_)
+            wr_ = wf_(SEEDS[ref], dummy, sf, flh); nm_ = lf_.__name__[5:-5]
+        else:
+            lk_long = T.make_ptlc_lock(PUBS[rcv], PUBS[ref], timeout=3600, sigflags=flh)
+            lk_short = T.make_ptlc_lock(PUBS[rcv], PUBS[ref], timeout=5, sigflags=flh)
+            wr_ = T.make_ptlc_refund_witness(SEEDS[ref], sf, flh); nm_ = 'ptlc'
+        for thr_ in (60, 0, 10, 60):
+            cfg_ = tsh.Cfg() if thr_ == 60 else tsh.Cfg(global_flags={'ts_threshold': thr_})
+            tag_ = ' [functions.flags ts_threshold=%d]' % thr_
+            out.append((nm_ + ':refund of a 3600 s contract at its deadline' + tag_, [bs(wr_), bs(lk_long)], dict(sf, timestamp=now + 3600), cfg_, thr_ <= 0))
+            out.append((nm_ + ':refund of a 5 s contract 25 s ahead of the clock' + tag_, [bs(wr_), bs(lk_short)], dict(sf, timestamp=now + 25), cfg_, thr_ <= 0 or 25 < thr_))
     # cross-pairings of the witness kinds with the lock kinds (what each pair must give follows from the exact lock theorems:
     # the model decides, no separate expectation), before and at the deadline, by the receiver and by the refund key
     locks = [(lf.__name__[5:-5], lf(PUBS[rcv], PUBS[ref], preimage=pre, timeout=timeout, sigflags=flh, **kw2)) for lf, _, kw2 in builders]
@@ -865,6 +882,22 @@ def c17(rng):
             if m == b''.join(sf[k] for k in sorted(sf)):
                 out.append(('decrypt_adapter == RT||s', None, None, None, dec == RT + s if sf else True))
         out.append((nm + 'decrypted sig (+flag byte) unlocks', [gpush(dec + (bytes([fl]) if fl else b'')), bs(l3)], sf, cfg, True))
+    # the tweak given as a nacl SigningKey (clamp_scalar is typed bytes | SigningKey): t is the key's secret scalar, T its public key
+    skt = tsh.SigningKey(SEEDS[b])
+    Tk = PUBS[b]
+    try:
+        l1k, l2k, l3k = T.make_adapter_locks_prv(X, skt, flh)
+        l1r, l3r = T.make_adapter_locks_pub(X, Tk, flh)
+        out.append(('adapter-locks(prv, tweak as SigningKey) commit to the key\'s public point', None, None, None, bs(l1k) == bs(l1r) and bs(l3k) == bs(l3r)))
+        wk = T.make_adapter_witness(seed, Tk, sf, flh)
+        out.append(('adapter-locks(prv, tweak as SigningKey): witness passes verify lock', [bs(wk), bs(l1k)], sf, cfg, True))
+        out.append(('adapter-locks(prv, tweak as SigningKey): decrypt + concat + check_sig', [bs(wk), bs(T.make_adapter_decrypt(skt)), bytes([F.opcodes_inverse['OP_CONCAT'][0]]), bs(l3k)],
+                    sf, cfg, True if fl == 0 else None))
+        deck = T.decrypt_adapter(wk, skt)
+        mk = b''.join(sf[k] for k in sorted(sf) if not (fl >> (int(k[-1]) - 1)) & 1)
+        out.append(('decrypt_adapter(witness, tweak as SigningKey) is a signature by the signer over the covered fields', None, None, None, valid(deck[:32] + deck[32:64], mk, X)))
+    except BaseException as e:
+        out.append(('adapter builders with the tweak as SigningKey raised %s: %s' % (type(e).__name__, str(e)[:120]), None, None, None, False))
     # an adapter instruction must not use what an earlier adapter instruction of the same run left in the cache:
     # first another adapter is made for a different tweak point (the default flags cache r, R, T, sa), then the honest
     # chain is run
